@@ -2,6 +2,7 @@
 from checks import symgen, refqr
 
 ID = 'C04'
+NO_ESCALATE = True   # the thorough generator enumerates 2.7 million payloads (6 min): too slow for a quick run on a changed tree
 PROP_MODULES = ['QRV.Props.C04', 'QRV.Props.C04Ext', 'QRV.Props.C04Ext2']
 RULE = ('payloads over the alphabet {digit, alnum-only, lower-case byte, 2-byte non-kanji UTF-8, 3-byte kanji, 3-byte non-kanji, 4-byte UTF-8, truncated lead byte, stray continuation '
         'byte, NUL, 0xFF}: exhaustively up to length 4 (quick) / 5 (thorough) and random up to length 60, plus long digit / alphanumeric / kanji runs up to the symbol capacity; x all '
